@@ -18,11 +18,14 @@ struct Scripts {
   // "hooks":     { id -> {"polls":[k per fire]} }   k<0: never finishes
   Json::Value j;
   std::atomic<int> next_serial{1};
+  // real time every scripted plugin's init() takes (widens the compile window of drop-ins, C14)
+  std::atomic<int> init_sleep_us{0};
   // probe callback (C15): invoked from vp_probe::run with the real context
   std::function<void(Oomd::OomdContext&, const std::string& id)> probe;
   void reset(const Json::Value& scripts) {
     j = scripts;
     next_serial = 1;
+    init_sleep_us = 0;
     probe = nullptr;
   }
 };
